@@ -1,3 +1,4 @@
+import Casm.Model.Assemble
 import Casm.Proofs.IterModel
 import Casm.Proofs.BitsLemmas
 /-!
@@ -131,5 +132,15 @@ theorem toUsize_rejects (x : Int) (h : x < 0 âˆ¨ (18446744073709551616 : Int) â‰
 theorem passes_bounded (st : Static) (nodes : List AstNode) (max : Nat) (d0 : Defs) (k : Nat) (d : Defs) (rep : List String)
     (h : resolveIterativelyN st nodes max d0 = .ok (k, d, rep)) : k â‰¤ max :=
   Iter.iters_le_budget (absPass st nodes) max d0 k d (resolveIterativelyN_sim st nodes max d0 k d rep h)
+
+/-- **a bank whose size in bits does not fit a `usize` is rejected** (finding F47, repaired: the size in address
+    units was multiplied by the unit without a check): whenever a bank is defined, its size is below 2^64 bits -/
+theorem bank_size_fits_usize (d : Decls) (defs : Defs) (b : BankdefAst) (bank : Bank) (h : defineBank d defs b = .ok bank) :
+    âˆ€ s, bank.size = some s â†’ s < USIZE_MAX1 := by
+  intro s hs
+  unfold defineBank at h
+  simp only [bind, Except.bind, pure, Except.pure] at h
+  repeat' (split at h <;> try (cases h; done))
+  all_goals (injection h with h; subst h; simp only at hs; first | (cases hs; done) | (injection hs with hs; subst hs; assumption))
 
 end Casm.C19
